@@ -212,8 +212,8 @@ var allTools = []toolDef{
 			return &mcp.CallToolResult{Content: []mcp.Content{}, StructuredContent: req.Params.Arguments}, nil
 		}},
 	fixedTool("text", "one text item", "result",
-		&mcp.CallToolResult{Content: []mcp.Content{mcp.NewTextContent("hello\nworld <&>   é")}},
-		resultSpec([]any{textC("hello\nworld <&>   é")}, nil, false, nil), ""),
+		&mcp.CallToolResult{Content: []mcp.Content{mcp.NewTextContent("hello\nworld <&> \u2028 é")}},
+		resultSpec([]any{textC("hello\nworld <&> \u2028 é")}, nil, false, nil), ""),
 	fixedTool("rich", "image, audio and annotated text", "result",
 		&mcp.CallToolResult{Content: []mcp.Content{mcp.NewImageContent("aGk=", "image/png"), mcp.NewAudioContent("AAAA", "audio/wav"),
 			annotated(mcp.NewTextContent(""), []mcp.Role{"user", "assistant"}, 0.5)},
@@ -237,6 +237,24 @@ var allTools = []toolDef{
 		}},
 	fixedTool("nilcontent", "a result whose Content slice is nil", "result", &mcp.CallToolResult{},
 		resultSpec(nil, nil, false, nil), "null-slice"),
+	// the rich string classes in results, error messages, names and descriptions
+	fixedTool("text-ctl", "control characters \x1b \x00 in a text: \x1b[0m \x7f \u2028", "result",
+		&mcp.CallToolResult{Content: []mcp.Content{mcp.NewTextContent(CtlText)}, StructuredContent: map[string]any{"ctl\x01\x7f": CtlText}},
+		resultSpec([]any{textC(asJSONSees(CtlText))}, spec{"some": map[string]any{"ctl\x01\x7f": asJSONSees(CtlText)}}, false, nil), ""),
+	fixedTool("pct%d", "printf material %s 100% in a name, a description, a text, structured content", "result",
+		&mcp.CallToolResult{Content: []mcp.Content{mcp.NewTextContent(PrintfText), mcp.NewTextContent("100%")},
+			StructuredContent: map[string]any{"p%": "%d", "done": "100%", "list": []any{"%s", "%%", "%"}}, Result: mcp.Result{Meta: map[string]any{"%": "%!"}}},
+		resultSpec([]any{textC(PrintfText), textC("100%")}, spec{"some": map[string]any{"p%": "%d", "done": "100%", "list": []any{"%s", "%%", "%"}}}, false, spec{"%": "%!"}), ""),
+	fixedTool("fails-pct", "isError with printf material", "iserror", mcp.NewErrorResult("failed at 50%: %s"),
+		resultSpec([]any{textC("failed at 50%: %s")}, nil, true, nil), ""),
+	{name: "boom-ctl", desc: "a Go error with control characters", class: "handler-error", errText: asJSONSees(CtlText), out: spec{"k": "err", "msg": asJSONSees(CtlText)},
+		handler: func(ctx context.Context, req *mcp.CallToolRequest) (*mcp.CallToolResult, error) {
+			return nil, errors.New(CtlText)
+		}},
+	{name: "boom-pct", desc: "a Go error with printf material", class: "handler-error", errText: PrintfText, out: spec{"k": "err", "msg": PrintfText},
+		handler: func(ctx context.Context, req *mcp.CallToolRequest) (*mcp.CallToolResult, error) {
+			return nil, errors.New(PrintfText)
+		}},
 }
 
 func annotated(t mcp.TextContent, aud []mcp.Role, pri float64) mcp.TextContent {
@@ -280,6 +298,17 @@ var allPrompts = []promptDef{
 		handler: func(ctx context.Context, req *mcp.GetPromptRequest) (*mcp.GetPromptResult, error) {
 			return &mcp.GetPromptResult{}, nil
 		}},
+	{name: "p%s", desc: "printf material %d%% and controls \x1b\x7f", class: "result",
+		out: spec{"k": "result", "r": promptSpec("100% %s", []any{spec{"role": "user", "content": textC(PrintfText)}, spec{"role": "assistant", "content": textC(asJSONSees(CtlText))}})},
+		handler: func(ctx context.Context, req *mcp.GetPromptRequest) (*mcp.GetPromptResult, error) {
+			return &mcp.GetPromptResult{Description: "100% %s", Messages: []mcp.PromptMessage{
+				{Role: "user", Content: mcp.NewTextContent(PrintfText)}, {Role: "assistant", Content: mcp.NewTextContent(CtlText)}}}, nil
+		}},
+	{name: "p-err-ctl", desc: "a Go error with control characters and printf material", class: "handler-error", errText: asJSONSees(CtlText + PrintfText),
+		out: spec{"k": "err", "msg": asJSONSees(CtlText + PrintfText)},
+		handler: func(ctx context.Context, req *mcp.GetPromptRequest) (*mcp.GetPromptResult, error) {
+			return nil, errors.New(CtlText + PrintfText)
+		}},
 	{name: "p-chan", desc: "a result json.Marshal refuses", class: "unencodable", errText: encoderSays, out: spec{"k": "unenc", "why": encoderSays},
 		handler: func(ctx context.Context, req *mcp.GetPromptRequest) (*mcp.GetPromptResult, error) {
 			return &mcp.GetPromptResult{Result: mcp.Result{Meta: map[string]any{"c": make(chan int)}}, Messages: []mcp.PromptMessage{}}, nil
@@ -309,6 +338,16 @@ var allResources = []resourceDef{
 	{name: "err", uri: "verif://r/err", class: "handler-error", errText: "backend said \"no\"", out: spec{"k": "err", "msg": "backend said \"no\""},
 		single: func(ctx context.Context, req *mcp.ReadResourceRequest) (mcp.ResourceContents, error) {
 			return nil, errors.New("backend said \"no\"")
+		}},
+	{name: "r%d", uri: "verif://r/%d%s%25/100%", desc: "printf material: 100% %s", mime: "text/x-%s", size: 3, class: "result",
+		out: spec{"k": "contents", "cs": []any{resT("verif://r/%d%s%25/100%", "text/x-%s", PrintfText), resT("verif://ctl", "", asJSONSees(CtlText))}},
+		multi: func(ctx context.Context, req *mcp.ReadResourceRequest) ([]mcp.ResourceContents, error) {
+			return []mcp.ResourceContents{mcp.TextResourceContents{URI: "verif://r/%d%s%25/100%", MIMEType: "text/x-%s", Text: PrintfText},
+				mcp.TextResourceContents{URI: "verif://ctl", Text: CtlText}}, nil
+		}},
+	{name: "err-ctl", uri: "verif://r/err-ctl", class: "handler-error", errText: asJSONSees(CtlText + " 100%"), out: spec{"k": "err", "msg": asJSONSees(CtlText + " 100%")},
+		single: func(ctx context.Context, req *mcp.ReadResourceRequest) (mcp.ResourceContents, error) {
+			return nil, errors.New(CtlText + " 100%")
 		}},
 }
 
